@@ -17,7 +17,7 @@
                                  _reversebytes (1098), _validate_slice (1143), unpack / _readlist / _read_dtype_list (1151-1225)
                  methods.py      pack (12-97)
                  bitarray_.py    byteswap (521-580)
-                 array_.py       _set_dtype (152-170), _create_element (172), tolist (276), extend (285-309),
+                 array_.py       _set_dtype (152-170), _create_element (172), tolist (276), extend (285-311),
                                  byteswap (329-338), tobytes
                  __init__.py     byteorder and the *ne aliases (298-313, through `Gen.Struct.definitionOf`)
   Floats are carried as IEEE bit patterns at the width of the code they are packed with (`Val.flt`); the conversion
@@ -331,15 +331,22 @@ def structPackFloat (len : Nat) (big : Bool) (p : Nat) : List Nat :=
 def float2bitstore (p : Nat) (len : Nat) (big : Bool) : Bits := bitsOfBytes (structPackFloat len big p)
 
 /-- `Dtype.build(value)` (dtypes.py:174): the definition's `set_fn` with `length=`, then the length check.
-    `_setuint` / `_setint` / `_setuintbe` / `_setintbe` / `_setuintle` / `_setintle` (bits.py:647-728) reject
-    `length == 0`; `_setfloat` (bits.py:768) rejects lengths other than 16/32/64.
+    `_setuint` / `_setint` / `_setuintbe` / `_setintbe` / `_setuintle` / `_setintle` (bits.py) reject
+    `length == 0`, the four endian-specific ones also a length that is not a whole number of bytes;
+    `_setfloat` rejects lengths other than 16/32/64.
     A value of the wrong Python type is outside the modelled domain (`type`; never generated). -/
 def build (d : DType) (v : Val) : Except Err Bits :=
   match d.defn, v with
-  | .uint, .int i | .uintbe, .int i => if d.length = 0 then .error .value else int2bitstore i d.length false
-  | .int, .int i | .intbe, .int i => if d.length = 0 then .error .value else int2bitstore i d.length true
-  | .uintle, .int i => if d.length = 0 then .error .value else intle2bitstore i d.length false
-  | .intle, .int i => if d.length = 0 then .error .value else intle2bitstore i d.length true
+  | .uint, .int i => if d.length = 0 then .error .value else int2bitstore i d.length false
+  | .int, .int i => if d.length = 0 then .error .value else int2bitstore i d.length true
+  | .uintbe, .int i =>
+    if d.length = 0 then .error .value else if d.length % 8 ≠ 0 then .error .value else int2bitstore i d.length false
+  | .intbe, .int i =>
+    if d.length = 0 then .error .value else if d.length % 8 ≠ 0 then .error .value else int2bitstore i d.length true
+  | .uintle, .int i =>
+    if d.length = 0 then .error .value else if d.length % 8 ≠ 0 then .error .value else intle2bitstore i d.length false
+  | .intle, .int i =>
+    if d.length = 0 then .error .value else if d.length % 8 ≠ 0 then .error .value else intle2bitstore i d.length true
   | .float, .flt p =>
     if d.length = 16 ∨ d.length = 32 ∨ d.length = 64 then
       (if p < 2 ^ d.length then .ok (float2bitstore p d.length true) else .error .type)
@@ -598,7 +605,8 @@ def swapLoop : Nat → Bits → List Nat → Nat → Nat → Nat → Nat → Nat
       swapLoop fuel (swapOnce l sizes (patternend - total)) sizes total (patternend + total) finalbit (reps + 1)
     else (reps, l)
 
-/-- `BitArray.byteswap(fmt, start, end, repeat)` (bitarray_.py:521). -/
+/-- `BitArray.byteswap(fmt, start, end, repeat)` (bitarray_.py:521); without `repeat` the single application is
+    attempted only if it fits before `end` (`finalbit = min(start_v + totalbitsize, end_v)`). -/
 def byteswap (l : Bits) (f : Fmt) (s e : Option Int) (rep : Bool) : Except Err (Nat × Bits) :=
   match validateSlice l.length s e with
   | .error err => .error err
@@ -608,7 +616,7 @@ def byteswap (l : Bits) (f : Fmt) (s e : Option Int) (rep : Bool) : Except Err (
     | .ok sizes =>
       let total := 8 * sizes.sum
       if total = 0 then .ok (0, l) else
-      let finalbit := if rep then z else a + total
+      let finalbit := if rep then z else min (a + total) z
       .ok (swapLoop (finalbit + 1) l sizes total (a + total) finalbit 0)
 
 /-! ## Array -/
@@ -696,28 +704,37 @@ def arrayArrayTobytes (tc : Char) (itemsize : Nat) : List Val → Except Err (Li
       | .error e => .error e
       | .ok x => (arrayArrayTobytes tc itemsize vs).map (x ++ ·)
 
-/-- The acceptance test of `Array.extend(array.array)` (array_.py:296-303):
-    `parse_single_struct_token('=' + typecode)`, `dtype_register.get_dtype(*name_value)`, then
+/-- The acceptance test of `Array.extend(array.array)` (array_.py:296-305):
+    `parse_single_struct_token('=' + typecode)` gives the dtype *name*, the length is the array's own
+    `itemsize * 8`; `dtype_register.get_dtype(name, itemsize * 8)`, then
     `self._dtype.name != other_dtype.name or self._dtype.length != other_dtype.length`. -/
-def arrayAccepts (d : DType) (tc : Char) : Bool :=
+def arrayAccepts (d : DType) (tc : Char) (itemsize : Nat) : Bool :=
   match singleStructToken '=' tc with
-  | some (.ok (name, len)) =>
-    match mkDtype name len with
+  | some (.ok (name, _)) =>
+    match mkDtype name (itemsize * 8) with
     | .ok other => d.defn = other.defn ∧ d.length = other.length
     | .error _ => false
   | _ => false
 
-/-- `Array.extend(array.array(tc, vals))` (array_.py:285-303) on an Array with dtype `d` and data `data`:
+/-- `Array.extend(array.array(tc, vals))` (array_.py:285-305) on an Array with dtype `d` and data `data`:
     trailing bits → ValueError; acceptance test; `self.data += iterable.tobytes()`. -/
 def arrayExtend (d : DType) (data : Bits) (tc : Char) (itemsize : Nat) (vals : List Val) : Except Err Bits :=
   if d.length = 0 then .error (.internal "ZeroDivisionError") else
   if data.length % d.length ≠ 0 then .error .value else
-  if !arrayAccepts d tc then .error .value else
+  if !arrayAccepts d tc itemsize then .error .value else
   match arrayArrayTobytes tc itemsize vals with
   | .error e => .error e
   | .ok bytes => .ok (data ++ bitsOfBytes bytes)
 
-/-! # Regions where the unchanged tree departs from `struct` / `array` (same names as REGIONS in the harness) -/
+/-- What C guarantees about the item size of an `array.array` typecode: `char` is one byte, every other integer
+    type more than one, `float` / `double` are IEEE binary32 / binary64 (`e` is not an array typecode). -/
+def itemsizeOK (tc : Char) (itemsize : Nat) : Bool :=
+  match structKindSize tc with
+  | some (k, n) =>
+    (if n = 1 then itemsize = 1 else 1 < itemsize) ∧ (k = .float → (itemsize = 2 ∨ itemsize = 4 ∨ itemsize = 8))
+  | none => true
+
+/-! # Region where the unchanged tree departs from `struct` (same name as in REGIONS of the harness) -/
 
 /-- Native (`@`) layout of this platform's C compiler (LP64: `long` is 8 bytes, every type aligned to its size). -/
 def nativeSize (c : Char) : Nat :=
@@ -737,12 +754,6 @@ def native_at_prefix_platform_sizes (fmt : String) : Bool :=
   match matchStructFmt fmt with
   | some ('@', codes) => nativeCalcsize codes 0 != standardCalcsize codes
   | _ => false
-
-/-- `array.array` typecode whose platform item size is not the standard size of the struct code. -/
-def array_typecode_platform_itemsize (tc : Char) (itemsize : Nat) : Bool :=
-  match structKindSize tc with
-  | some (_, n) => itemsize != n
-  | none => false
 
 /-! # driver -/
 
